@@ -39,6 +39,27 @@ DOMAIN = {3: (0, 23, 'hour'), 4: (0, 59, 'minute'), 5: (0, 59, 'second')}
 
 
 def check(ctx, rep):
+    # ENVIRON$ reads the host environment every time: the Environment object keeps no copy of a value (a cache keyed before the
+    # name is upper-cased goes stale after ENVIRON "name=..." )
+    env = ctx.cls('pcbasic/basic/dos.py:Environment')
+    from ..source import class_methods as _cm
+    state = set()
+    for m in _cm(env).values():
+        for a in own_nodes(m):
+            if isinstance(a, (ast.Assign, ast.AugAssign)):
+                for t in (a.targets if isinstance(a, ast.Assign) else [a.target]):
+                    base = t
+                    while isinstance(base, ast.Subscript):
+                        base = base.value
+                    if isinstance(base, ast.Attribute) and norm(base.value) == 'self':
+                        state.add(base.attr)
+    rep.ob('environ.no-copy-of-the-environment', 'Environment holds nothing but the value factory and the codepage', state <= {'_values', '_codepage'},
+           'attributes %r: a value kept in the object can differ from the host environment that ENVIRON has just set' % sorted(state - {'_values', '_codepage'}),
+           'pcbasic/basic/dos.py')
+    ge = ctx.fn('pcbasic/basic/dos.py:Environment._getenv')
+    rets = [r for r in own_nodes(ge) if isinstance(r, ast.Return) and r.value is not None]
+    rep.ob('environ.no-copy-of-the-environment', '_getenv returns the converted value of getenvu(name) read at the call',
+           len(rets) == 1 and 'getenvu(ukey' in norm(rets[0].value), repr([norm(r.value) for r in rets]), ctx.where(ge))
     n_args = 0
     for meth in ('time_', 'date_'):
         fn = ctx.fn('%s:Clock.%s' % (CLOCK, meth))
@@ -148,6 +169,8 @@ def variants(ctx):
 
     old_cond = 'timelist[0] < 0 or timelist[0] > 23 or timelist[1] < 0 or (timelist[1] > 59) or (timelist[2] < 0) or (timelist[2] > 59)'
     return [
+        mu.Variant('environ-values-cached-in-the-object', 'break', 'pcbasic/basic/dos.py',
+                   lambda tree: mu.insert_first(mu.find_def(tree, 'Environment._getenv'), "self._cache = getattr(self, '_cache', {})"), expect='environ.no-copy-of-the-environment'),
         Va('time-upper-bounds-only', 'break', CLOCK,
            in_fn('Clock.time_', lambda fn: mu.replace_expr(fn, lambda n: isinstance(n, ast.BoolOp) and 'timelist[0] < 0' in norm(n),
                                                           'timelist[0] > 23 or timelist[1] > 59 or timelist[2] > 59')), expect='validate.user-component'),
